@@ -549,6 +549,8 @@ def resolve_consts(prog, t, depth=0):
     if k == "constdef":
         r = const_term(prog, t[1])
         return r
+    if k == "promoted":
+        return promoted_term(prog, t[1], t[2])
     if k == "call":
         return ("call", t[1], tuple(resolve_consts(prog, a, depth + 1) for a in t[2]), t[3])
     if k == "aggr":
@@ -571,4 +573,27 @@ def resolve_consts(prog, t, depth=0):
         return (k, t[1], resolve_consts(prog, t[2], depth + 1))
     if k == "phi":
         return mk_phi([resolve_consts(prog, x, depth + 1) for x in t[1]])
+    return t
+
+
+_PROM_MEMO = {}
+
+
+def promoted_term(prog, path, idx):
+    """value term of promoted constant #idx of function `path` (e.g. `&ISS` used as a comparison operand)"""
+    key = (id(prog), path, idx)
+    if key in _PROM_MEMO:
+        return _PROM_MEMO[key]
+    f = prog.fns.get(path)
+    t = ("promoted", path, idx)
+    if f is not None:
+        proms = f.d.get("promoted") or []
+        if idx < len(proms):
+            from .facts import Fn
+            d = dict(proms[idx])
+            d.setdefault("path", "%s::{promoted#%d}" % (path, idx))
+            d.setdefault("kind", "Promoted")
+            pf = Fn(d["path"], d, prog)
+            t = resolve_consts(prog, Prov(pf).return_term())
+    _PROM_MEMO[key] = t
     return t
